@@ -371,6 +371,9 @@ int main(int argc, char** argv) {
   };
 
   std::vector<std::string> n7x, n7y;  // filled below (N7)
+  std::vector<unsigned> n10be, n10pi = {0, 1, 3, 7, 10};
+  for (unsigned be = 1; be <= 2046; be += (quick ? 16 : 4)) n10be.push_back(be);
+  for (unsigned be : {2u, 1022u, 1023u, 1024u, 1074u, 1075u, 1076u, 1086u, 1087u, 1088u, 1089u, 2045u, 2046u}) n10be.push_back(be);
   // N8: N4 strings re-spelled with 10^4 .. 10^6 padding zeros, so that the written exponent has 5..7 digits and is
   // compensated by the length of the mantissa (exponent accumulators that saturate too early, digit counters)
   std::vector<unsigned> n8z = {9980, 9999, 10000, 10001, 99980, 99999, 100000, 100001, 100020, 300000, 1000000};
@@ -480,6 +483,43 @@ int main(int argc, char** argv) {
       ctx.nontriv();
       check_number(s, ctx, true, eb, einf);
       check_number("-" + s, ctx, true, eb | (1ull << 63), einf);
+      return;
+    }
+    if (nm[1] == '1' && nm[2] == '0') {
+      unsigned shape = (unsigned)(idx % 2);
+      idx /= 2;
+      unsigned v2 = (unsigned)(idx % 3), v1 = (unsigned)((idx / 3) % 3);
+      idx /= 9;
+      unsigned pi = n10pi[idx % n10pi.size()];
+      unsigned be = n10be[idx / n10pi.size()];
+      Dec d1, d2;
+      uint64_t e1, e2;
+      bool i1, i2;
+      n4case(be, pi, v1, d1, e1, i1);
+      n4case(be, pi, v2, d2, e2, i2);
+      if (i1 || i2) {
+        ctx.skip();
+        return;
+      }
+      std::string a = plain(d1), b = plain(d2);
+      std::string text = shape == 0 ? "[" + a + "," + b + "]" : "{\"a\":" + a + ",\"b\":-" + b + "}";
+      if (ctx.want_sample) ctx.sample("be=" + std::to_string(be) + " pattern " + std::to_string(pi) + " variants " + std::to_string(v1) + "," + std::to_string(v2));
+      ctx.eval();
+      ctx.nontriv();
+      ref::Result r = ref::parse(text);
+      if (!r.ok) {
+        ctx.violation("harness_number", "harness_number", text.substr(0, 200), "harness error: generated document is not valid JSON");
+        return;
+      }
+      ExactBuf bb(text);
+      Document doc;
+      doc.Parse(bb.p, bb.n);
+      if (doc.HasParseError()) {
+        ctx.violation("rejects_valid_number", "rejects_valid_number_pair", text, "two valid numbers in one document rejected with code %d", (int)doc.GetParseError());
+        return;
+      }
+      std::string d = sc::compare(doc, r.v);
+      if (!d.empty()) ctx.violation("number_value", "number_value_double_pair", text, "two numbers in one document (exponent %u, pattern %u, variants %u,%u): %s", be, pi, v1, v2, d.c_str());
       return;
     }
     if (nm[1] == '7') {
@@ -647,13 +687,19 @@ int main(int argc, char** argv) {
   f8.group = "N8";
   f8.chunk = 4;
   f8.rule = "N4 strings (exact tie / below / above) of " + std::to_string(n8be.size()) + " exponents x " + std::to_string(n8pi.size()) + " patterns re-spelled with z zeros for z in {9999..10001, 99999..100001, ... 10^6}: (0) integer mantissa with z trailing zeros and exponent about -z, (1) z trailing fraction zeros, (2) z leading fraction zeros and exponent about +z; expected bits known exactly";
-  fams = {f1, f2, f2b, f3, f3b, f4, f5, f6, f7, f8, f9};
+  vr::Family f10;
+  f10.name = "N10_siblings_in_one_document";
+  f10.count = (uint64_t)n10be.size() * n10pi.size() * 9 * 2;
+  f10.group = "N10";
+  f10.chunk = 32;
+  f10.rule = "two numbers in ONE document ([x,y] and {\"a\":x,\"b\":-y}): all ordered pairs over the exact tie / one unit below / one unit above spellings of the same midpoint (they share every leading digit and differ only in the last of up to ~770), for " + std::to_string(n10be.size()) + " binary exponents x " + std::to_string(n10pi.size()) + " significand patterns: each must be rounded on its own";
+  fams = {f1, f2, f2b, f3, f3b, f4, f5, f6, f7, f8, f9, f10};
   if (asan) {
     // the ASan pass re-runs the structurally interesting families only
-    fams = {f1, f2b, f4, f5, f6, f7, f8, f9};
+    fams = {f1, f2b, f4, f5, f6, f7, f8, f9, f10};
   }
   if (args.replay) {
-    std::vector<vr::Family> all = {f1, f2, f2b, f3, f3b, f4, f5, f6, f7, f8, f9};
+    std::vector<vr::Family> all = {f1, f2, f2b, f3, f3b, f4, f5, f6, f7, f8, f9, f10};
     return R.replay_one(all, check);
   }
   const std::string only = args.get("only");
